@@ -171,7 +171,16 @@ class Scanner:
                 break
         idx.reverse()
         base = A.strip(cur)
-        # pointer arithmetic base: (p + off)[i]
+        # a local (reference) variable bound to an expression denotes that expression
+        d = A.declref(base)
+        if d is not None and d["decl"] in self.tr.env and d["decl"] in self.locals and \
+                ("&" in (self.locals[d["decl"]].get("type") or "")):
+            return str(self.tr.env[d["decl"]]).replace(" ", ""), [sp.expand(i) for i in idx]
+        if base.get("k") in ("CXXMemberCallExpr", "CallExpr"):
+            try:
+                return str(self.tr.conv(base)).replace(" ", ""), [sp.expand(i) for i in idx]
+            except Unconvertible:
+                pass
         return A.show(base).replace(" ", ""), [sp.expand(i) for i in idx]
 
     # -- helpers -----------------------------------------------------------
@@ -454,3 +463,30 @@ def guard_text(guards):
         else:
             out.append(("" if pol else "!") + "(" + A.show(g) + ")")
     return " && ".join(out)
+
+
+def fold_stores(accesses, base, path=""):
+    """Fold the sequence of stores to `base[...]` (same index expression, program order) into one
+    expression per (index, guard context).  `+=`/`-=`/`*=`/`/=` refer to the value folded so far; a compound
+    store with no preceding plain store refers to Symbol('old').  Returns list of dict(idx, guards, loops, value, line)."""
+    out = []
+    for a in accesses:
+        if a.kind != "store" or a.base != base or a.path != path or a.idx is None:
+            continue
+        key = (tuple(a.idx), tuple((id(g), p) for g, p in a.guards))
+        cur = next((o for o in out if o["key"] == key), None)
+        if a.value is None:
+            raise AnalysisBroken("store to %s at line %d is not translatable" % (base, a.line))
+        if a.op == "=":
+            if cur is None:
+                cur = {"key": key, "idx": a.idx, "guards": a.guards, "loops": a.loops, "value": a.value, "line": a.line}
+                out.append(cur)
+            else:
+                cur["value"] = a.value
+        else:
+            if cur is None:
+                cur = {"key": key, "idx": a.idx, "guards": a.guards, "loops": a.loops, "value": sp.Symbol("old"), "line": a.line}
+                out.append(cur)
+            v = cur["value"]
+            cur["value"] = {"+=": v + a.value, "-=": v - a.value, "*=": v * a.value, "/=": v / a.value}[a.op]
+    return out
